@@ -5,6 +5,7 @@ from fractions import Fraction
 import numpy as np
 
 import gen
+import core
 from core import fr, w_rat, w_rats, w_bool, p_rats, cmp_exact, cmp_budget, call_impl, w_floats, p_floats
 
 PROP_MODULES = ['C14', 'C14Gen', 'C14GenInterp', 'C14Resample']
@@ -396,7 +397,8 @@ def run(ctx):
             return o
         eqsig.single.interp_array_to_approx_dt = spy
         try:
-            r = call_impl(asig.gen_response_spectrum, response_times=periods, xi=0.05)
+            with core.no_probe():      # the calls are counted below
+                r = call_impl(asig.gen_response_spectrum, response_times=periods, xi=0.05)
         finally:
             eqsig.single.interp_array_to_approx_dt = orig
         inputs = {'values': a if len(a) <= 80 else {'n': len(a), 'head': a[:8]}, 'dt': dt, 'response_times': periods}
